@@ -54,7 +54,9 @@ def match_known(pid, case, klass, known):
     for k in known:
         if k.get("property") != pid or k.get("status") != "open":
             continue
-        m = k.get("match", {})
+        m = k.get("match")
+        if not m:
+            continue        # demonstrated by its committed probe only: it never absorbs a violation found by the search
         if m.get("clause") is not None and m["clause"] != klass[0]:
             continue
         if m.get("channel") is not None and m["channel"] != klass[1]:
